@@ -401,7 +401,7 @@ impl DeviceControl for ControlHandle {
                 return Err(ControlError::Io(anyhow::Error::msg(err_msg)));
             }
             buf_chunk.copy_from_slice(ack.data);
-            address += read_len as u64;
+            address = address.wrapping_add(u64::from(read_len));
         }
 
         Ok(())
